@@ -1,6 +1,7 @@
 package props
 
 import (
+	"encoding/json"
 	"fmt"
 	"github.com/go-kid/ioc/syslog"
 	"os"
@@ -254,6 +255,10 @@ func (p c16) Run(c *core.Ctx) {
 	}
 	if c.Index%20 == 6 {
 		p.early(c)
+		return
+	}
+	if c.Index%20 == 16 {
+		p.collections(c)
 		return
 	}
 	cfg := genC16Config(c)
@@ -651,6 +656,70 @@ func (p c16) otherTags(c *core.Ctx) {
 // early: components that are created before the refresh - a post-processor that is itself a component,
 // and what is wired into it - resolve their placeholders against the loaded configuration like
 // everybody else.
+// collections: a placeholder whose key holds a (non-empty) mapping or list - with empty lists / mappings
+// nested below the top level - is replaced by that value: the field holds what a twin field written with the
+// replacement text (the value's JSON rendering, computed by the generator from its own tree) holds.
+func (p c16) collections(c *core.Ctx) {
+	word := func() string { return c16Words[c.Rng.Intn(len(c16Words))] }
+	emptyOr := func() any {
+		if c.Rng.Intn(2) == 0 {
+			return []any{}
+		}
+		return []any{word()}
+	}
+	tree := map[string]any{
+		"svc2":   map[string]any{"name": word(), "tags": emptyOr(), "retry": map[string]any{"codes": emptyOr(), "label": word()}},
+		"matrix": []any{[]any{word(), word()}, emptyOr()},
+	}
+	if c.Rng.Intn(3) == 0 {
+		tree["svc2"].(map[string]any)["extra"] = map[string]any{}
+	}
+	doc, _ := yaml.Marshal(tree)
+	key := []string{"svc2", "matrix", "svc2.retry"}[c.Rng.Intn(3)]
+	val := lookup(tree, key)
+	js, _ := json.Marshal(val)
+	var ft reflect.Type = reflect.TypeOf(map[string]any{})
+	if key == "matrix" {
+		ft = reflect.TypeOf([]any{})
+	}
+	form := c.Rng.Intn(3)
+	tag := []string{fmt.Sprintf("value:%q", "${"+key+"}"), fmt.Sprintf("prop:%q", key), fmt.Sprintf("value:%q", "${"+key+":fallback}")}[form]
+	twinTag := fmt.Sprintf("value:%q", string(js))
+	start := func(tag string) (any, *world.Run) {
+		h := world.NewHolder(world.BuildStruct([]world.FieldSpec{{Name: "F", Type: ft, Tag: tag}}))
+		sc := &world.Scenario{Config: string(doc)}
+		r := world.Start(sc, world.Options{Extra: []any{h}, NoTracer: true})
+		return reflect.ValueOf(h).Elem().Field(0).Interface(), r
+	}
+	got, r := start(tag)
+	twin, r2 := start(twinTag)
+	c.Count("starts", 2)
+	detail := map[string]any{"tag": tag, "twin_tag": twinTag, "config": string(doc), "outcome": core.Short(r.OutcomeDetail(), 300), "twin_outcome": core.Short(r2.OutcomeDetail(), 300)}
+	if abnormal(r.Outcome()) || abnormal(r2.Outcome()) {
+		c.Fail("", fmt.Sprintf("tag %s: %s / twin: %s", tag, r.OutcomeDetail(), r2.OutcomeDetail()), detail)
+		return
+	}
+	if r.Outcome() != r2.Outcome() {
+		c.Fail("", fmt.Sprintf("tag %s starts with outcome %s, its twin written with the replacement text %s with outcome %s", tag, r.Outcome(), twinTag, r2.Outcome()), detail)
+		return
+	}
+	if r.Outcome() != "ok" {
+		return
+	}
+	gj, _ := json.Marshal(got)
+	tj, _ := json.Marshal(twin)
+	if string(gj) != string(tj) {
+		c.Fail("", fmt.Sprintf("tag %s: the field holds %s, a twin written with the replacement text holds %s", tag, gj, tj), detail)
+		return
+	}
+	if string(tj) != string(js) {
+		c.Ambiguous() // the literal itself is not bound as the generator's rendering: nothing to compare against
+		return
+	}
+	c.Count("collection_valued_placeholders_checked", 1)
+	c.Nontrivial("collections|" + tag + "|" + string(js))
+}
+
 func (p c16) early(c *core.Ctx) {
 	cfg := genC16Config(c)
 	b, _ := yaml.Marshal(cfg.tree)
